@@ -26,6 +26,12 @@
 #include "stir/OSSPS/OSSPSReconstruction.h"
 #include "stir/recon_buildblock/PoissonLogLikelihoodWithLinearModelForMeanAndProjData.h"
 #include "stir/recon_buildblock/QuadraticPrior.h"
+#include "stir/recon_buildblock/LogcoshPrior.h"
+#include "stir/recon_buildblock/RelativeDifferencePrior.h"
+#include "stir/recon_buildblock/PriorWithParabolicSurrogate.h"
+#include "stir/recon_buildblock/BinNormalisationFromProjData.h"
+#include "stir/recon_buildblock/TrivialBinNormalisation.h"
+#include "stir/IO/OutputFileFormat.h"
 #include "stir/ProjDataInMemory.h"
 #include "stir/MedianImageFilter3D.h"
 #include "stir/IO/read_from_file.h"
@@ -62,6 +68,9 @@ public:
   void set_relaxation(float alpha, float gamma) { this->relaxation_parameter = alpha; this->relaxation_gamma = gamma; }
   void set_upper_bound(double u) { this->upper_bound = u; }
   void set_write_update_image(int v) { this->write_update_image = v; }
+  void set_enforce_initial_positivity(int v) { this->enforce_initial_positivity = v; }
+  void set_precomputed_denominator_filename(const std::string& f) { this->precomputed_denominator_filename = f; }
+  std::string update_filename() const { return this->make_filename_prefix_subiteration_num(this->output_filename_prefix + "_update"); }
   void update_estimate(Img& cur) override {
     if (hook) hook(0, cur);
     OSSPSReconstruction<Img>::update_estimate(cur);
@@ -128,7 +137,14 @@ struct Cfg {
   bool viaParse = false;                   // relaxation / upper bound given through the parser
   bool additive = true;
   bool enforcePos = false;
+  // ---- beyond the property's quantifier (named sections of Trace_OSSPS.tla)
+  int priorType = 0;                       // 0 quadratic, 1 log-cosh (has a parabolic surrogate), 2 relative difference (has none: must be refused)
+  bool randomise = false;                  // uniformly randomise subset order
+  bool writeUpdate = false;                // write update image
+  int denFile = 0;                         // precomputed denominator: 0 computed, 1 read from the file a reference run saved, 2 a file of another geometry
+  std::string denPath;
 };
+static const char* prior_types[] = { "quadratic", "logcosh", "rdp" };
 static const char* filter_names[] = { "none", "median001", "median011", "median111" };
 
 static shared_ptr<Img> image_from(const Sys& s, const std::vector<float>& v) {
@@ -181,7 +197,9 @@ struct Engine {
   shared_ptr<PLL> inner;
   shared_ptr<vh::WrapObjective> wrap;
   shared_ptr<RecOSSPS> recon;
-  shared_ptr<QuadraticPrior<float>> prior;
+  shared_ptr<QuadraticPrior<float>> prior;             // quadratic priors (weights / kappa can be set)
+  shared_ptr<GeneralisedPrior<Img>> gprior;             // whatever prior is installed
+  PriorWithParabolicSurrogate<Img>* surr = nullptr;     // the same object if it has a parabolic surrogate
   std::string prefix;
   // what the callbacks collected during the current sub-iteration
   int nGrad = 0, gradSub = -1, gradNsub = 0, nApprox = 0, nFill = 0;
@@ -195,8 +213,18 @@ static void configure(Engine& e, const Sys& s, const Cfg& c, const std::string& 
   e.inner->set_recompute_sensitivity(true);
   e.inner->set_zero_seg0_end_planes(false);
   e.inner->set_num_subsets(c.N);
-  if (c.prior) {
+  if (c.prior && c.priorType != 0) {
+    e.prior.reset();
+    if (c.priorType == 1) {
+      shared_ptr<LogcoshPrior<float>> lp(new LogcoshPrior<float>(false, (float)c.beta, 1.F));
+      if (c.kappa) { std::vector<float> kf(c.kap.begin(), c.kap.end()); lp->set_kappa_sptr(image_from(s, kf)); }
+      e.gprior = lp;
+    } else e.gprior.reset(new RelativeDifferencePrior<float>(false, (float)c.beta, 2.F, 0.1F));
+    e.surr = dynamic_cast<PriorWithParabolicSurrogate<Img>*>(e.gprior.get());
+    e.inner->set_prior_sptr(e.gprior);
+  } else if (c.prior) {
     if (c.dep) e.prior.reset(new DepQuadratic(false, (float)c.beta)); else e.prior.reset(new QuadraticPrior<float>(false, (float)c.beta));
+    e.gprior = e.prior; e.surr = e.prior.get();
     if (!c.defaultWeights) {
       Array<3, float> w(IndexRange3D(-1, 1, -1, 1, -1, 1));
       int i = 0;
@@ -209,7 +237,7 @@ static void configure(Engine& e, const Sys& s, const Cfg& c, const std::string& 
     }
     e.inner->set_prior_sptr(e.prior);
   } else {
-    e.prior.reset();
+    e.prior.reset(); e.gprior.reset(); e.surr = nullptr;
     e.inner->set_prior_sptr(shared_ptr<GeneralisedPrior<Img>>());
   }
   e.wrap->sync_prior();
@@ -217,7 +245,10 @@ static void configure(Engine& e, const Sys& s, const Cfg& c, const std::string& 
   RecOSSPS& r = *e.recon;
   r.set_num_subsets(c.N);
   r.set_start_subset_num(c.startSubset);
-  r.set_randomise_subset_order(false);
+  r.set_randomise_subset_order(c.randomise);
+  r.set_write_update_image(c.writeUpdate ? 1 : 0);
+  r.set_enforce_initial_positivity(c.enforcePos ? 1 : 0);
+  r.set_precomputed_denominator_filename(c.denFile ? c.denPath : std::string());
   r.set_save_interval(1);
   r.set_output_filename_prefix(e.prefix);
   r.set_inter_iteration_filter_interval(c.filterInt);
@@ -270,7 +301,9 @@ static void emit_config(vh::Trace& tr, const Sys& s, const Cfg& c, const Matrix&
       .boolean("prior", c.prior).boolean("kappa", c.kappa).boolean("dep", c.dep).boolean("defaultWeights", c.defaultWeights).num("beta", c.beta)
       .arr("w", c.w).arr("kap", c.kap).arr("dims", std::vector<int>{ s.nz, s.ny, s.nx })
       .str("filter", filter_names[c.filter]).num("filterInt", c.filterInt).boolean("post", c.post).boolean("viaParse", c.viaParse)
-      .boolean("additive", c.additive).boolean("enforcePos", c.enforcePos);
+      .boolean("additive", c.additive).boolean("enforcePos", c.enforcePos)
+      .str("priorType", prior_types[c.priorType]).boolean("randomise", c.randomise).boolean("writeUpdate", c.writeUpdate)
+      .str("denFile", c.denFile == 0 ? "none" : c.denFile == 1 ? "own" : "wrong");
   tr.emit(j);
 }
 
@@ -309,13 +342,13 @@ static bool run_once(vh::Trace& tr, const Sys& s, Engine& e, const Cfg& c, const
       // the data part of the denominator as OSSPS saved it (real file, read back with the real reader)
       shared_ptr<Img> dd;
       std::string m2;
-      const bool rerr = vh::threw([&] { dd = read_from_file<Img>(e.prefix + "_precomputed_denominator.hv"); }, &m2);
+      const bool rerr = vh::threw([&] { dd = read_from_file<Img>(c.denFile ? c.denPath : e.prefix + "_precomputed_denominator.hv"); }, &m2);
       j.boolean("dRead", !rerr).num("kd", sc.kd);
       if (!rerr) put_fx(j, "dData", "exd", *dd, sc.kd);
       // the prior's surrogate curvature as the real prior reports it (for the image the run starts from)
-      if (c.prior) {
+      if (c.prior && e.surr) {
         shared_ptr<Img> cv(target->get_empty_copy());
-        const bool cerr = vh::threw([&] { e.prior->parabolic_surrogate_curvature(*cv, *target); });
+        const bool cerr = vh::threw([&] { e.surr->parabolic_surrogate_curvature(*cv, *target); });
         j.boolean("cErr", cerr);
         put_fx(j, "curv", "exc", *cv, sc.kd);
       }
@@ -342,6 +375,17 @@ static bool run_once(vh::Trace& tr, const Sys& s, Engine& e, const Cfg& c, const
       j.arr("b1", bits_of(*e.lam1));
       put_fx(j, "lam2", "ex2", cur, sc.kl);
       j.arr("b2", bits_of(cur));
+      if (c.writeUpdate) {   // the update image OSSPS wrote for this sub-iteration, read back with the real reader
+        shared_ptr<Img> up;
+        const bool uerr = vh::threw([&] { up = read_from_file<Img>(r.update_filename() + ".hv"); });
+        j.boolean("updRead", !uerr);
+        if (!uerr) put_fx(j, "upd", "exu", *up, sc.kl);
+      }
+      if (c.prior && c.priorType == 1 && e.surr && e.est) {   // log-cosh: the surrogate curvature at the image of THIS sub-iteration
+        shared_ptr<Img> cv(cur.get_empty_copy());
+        vh::threw([&] { e.surr->parabolic_surrogate_curvature(*cv, *e.est); });
+        put_fx(j, "curvNow", nullptr, *cv, sc.kd);
+      }
       tr.emit(j);
       ++steps;
     }
@@ -374,6 +418,8 @@ static void remove_outputs(const Engine& e, int last) {
   for (int k = 0; k <= last + 1; ++k)
     for (const char* ext : { ".hv", ".v", ".ahv" }) std::remove((e.prefix + "_" + std::to_string(k) + ext).c_str());
   for (const char* ext : { ".hv", ".v", ".ahv" }) std::remove((e.prefix + "_precomputed_denominator" + ext).c_str());
+  for (int k = 0; k <= last + 1; ++k)
+    for (const char* ext : { ".hv", ".v", ".ahv" }) std::remove((e.prefix + "_update_" + std::to_string(k) + ext).c_str());
 }
 
 // ---------------------------------------------------------------- prior ingredients
@@ -444,10 +490,11 @@ static bool exact_instance(vh::Trace& tr, const Sys& s, vh::Rng& rng, long i, co
   }
   const int k = rng.range(1, 3 * c.N + (rng.range(0, 3) == 0 ? 4 * c.N : 0));   // the sub-iteration performed
   pick_relaxation(rng, c, k / c.N);
-  static const int ubs[][2] = { { 4, 0 }, { 5, 1 }, { 3, 0 }, { 1, 0 }, { 8, 0 }, { 13, 2 } };
+  static const int ubs[][2] = { { 4, 0 }, { 5, 1 }, { 3, 0 }, { 1, 0 }, { 8, 0 }, { 13, 2 }, { 0, 0 } };
   c.uInf = rng.range(0, 2) == 0;
-  if (!c.uInf) { const int* u = ubs[rng.range(0, 5)]; c.uN = u[0]; c.uK = u[1]; }
+  if (!c.uInf) { const int* u = ubs[rng.range(0, 6)]; c.uN = u[0]; c.uK = u[1]; }
   c.viaParse = rng.range(0, 2) == 0;
+  c.writeUpdate = rng.range(0, 2) == 0;
   // without additive term the mean of a bin is (P lambda)_b itself: every bin then sees voxels of ONE class only, all
   // voxels of a class have the same value 2^class, so that (P lambda)_b = 2^class (P 1)_b
   c.additive = rng.range(0, 3) != 0;
@@ -616,6 +663,7 @@ static Cfg random_cfg(const Sys& s, vh::Rng& rng, long id, int N, int priorKind,
   if (!c.uInf) { const int* u = ubs[rng.range(0, 4)]; c.uN = u[0]; c.uK = u[1]; }
   c.viaParse = rng.range(0, 2) == 0;
   c.additive = rng.range(0, 3) != 0;
+  c.writeUpdate = rng.range(0, 2) == 0;
   if (filterMode) {
     c.filter = rng.range(1, 3);
     c.filterInt = rng.range(1, 2);
@@ -675,26 +723,127 @@ static void runs_group(vh::Trace& tr, const Sys& s, vh::Rng& rng, long& cfgid, i
   { const int k = rng.range(1, K - 1 > 0 ? K - 1 : 1);
     if (k < K && saved[k]) run_once(tr, s, ref, c, "resume", k, k + 1, K, *saved[k], sc, false, false); }
   remove_outputs(ref, K);
-  // ---- an object with another history: first a complete reconstruction under a different configuration, then this one
-  const int others = stage ? 3 : 1;
-  for (int o = 0; o < others; ++o) {
-    static const int Ns[] = { 1, 2, 3, 4 };
-    const int N2 = Ns[rng.range(0, 3)];
-    int pk2 = rng.range(0, 4);
-    if (o == 0 && priorKind == 0 && pk2 == 0) pk2 = 1;      // make sure a prior has been in the denominator before
-    Cfg c2 = random_cfg(s, rng, ++cfgid, N2, pk2, 0);
-    c2.additive = c.additive;
+  // ---- an object with another history: first a complete reconstruction with ONE setting different (changed back through the
+  // setters / the parser afterwards) or under an altogether different configuration, then this configuration
+  // 0 everything, 1 relaxation, 2 upper bound, 3 number of subsets, 4 prior added/removed, 5 penalisation factor, 6 input data,
+  // 7 normalisation, 8 additive term
+  std::vector<int> changes = { 0, 1, 2, 3, 4, 5, 6, 7, 8 };
+  for (size_t i = changes.size(); i > 1; --i) std::swap(changes[i - 1], changes[rng.next() % i]);
+  changes.resize(stage ? 9 : 3);
+  for (int what : changes) {
+    Cfg c2 = c;
+    c2.id = ++cfgid;
+    std::vector<float> y2 = y, a2 = a;
+    bool norm2 = false, additive2 = c.additive;
+    switch (what) {
+    case 0: { static const int Ns[] = { 1, 2, 3, 4 }; int pk2 = rng.range(0, 4); if (priorKind == 0 && pk2 == 0) pk2 = 1;
+              c2 = random_cfg(s, rng, c2.id, Ns[rng.range(0, 3)], pk2, 0); c2.additive = c.additive; break; }
+    case 1: c2.aN = c.aN == 3 ? 1 : 3; c2.aK = 1; c2.gN = c.gN + 1; break;
+    case 2: c2.uInf = !c.uInf; if (!c2.uInf) { c2.uN = 6; c2.uK = 0; } break;
+    case 3: c2.N = c.N % 4 + 1; c2.startSubset = 0; c2.uss = true; break;
+    case 4: if (c.prior) { c2.prior = c2.kappa = c2.dep = false; c2.beta = 0; c2.w.clear(); c2.kap.clear(); c2.defaultWeights = false; }
+            else { c2.prior = true; c2.beta = 2; c2.defaultWeights = true; } break;
+    case 5: if (c.prior) c2.beta = c.beta + 1; else { c2.prior = true; c2.beta = 1; c2.defaultWeights = true; } break;
+    case 6: for (auto& v : y2) v = v * 1.5F + 1.F; break;
+    case 7: norm2 = true; break;
+    default: additive2 = !c.additive; if (additive2) for (auto& v : a2) v = std::max(v, 0.25F); break;
+    }
+    c2.additive = additive2;
     Engine e;
-    make_engine(e, s, m, y, a, c.additive, scratch);
+    make_engine(e, s, m, y2, a2, additive2, scratch);
+    if (norm2) {   // normalisation factors 2 (efficiencies 1/2) for every bin
+      std::vector<float> two(nb, 2.F);
+      e.inner->set_normalisation_sptr(shared_ptr<BinNormalisation>(new BinNormalisationFromProjData(make_pd(s, two))));
+    }
     emit_config(tr, s, c2, m);
     if (vh::threw([&] { configure(e, s, c2, scratch); }, &msg)) { tr.emit(vh::Json("ConfigureError").num("cfg", c2.id).str("msg", msg.substr(0, 160))); continue; }
     std::vector<float> init2(nv);
     for (int v = 0; v < nv; ++v) init2[v] = c2.uInf ? rnd(rng, 8, 256) : std::min(rnd(rng, 8, 256), std::ldexp((float)c2.uN, -c2.uK));
-    run_once(tr, s, e, c2, "history", 0, 1, 2 * N2, *image_from(s, init2), sc, false, false);
+    run_once(tr, s, e, c2, "history", 0, 1, 2 * c2.N, *image_from(s, init2), sc, false, false);
+    // back to this group's configuration through the public setters (the reconstruction forwards the data to its objective function)
+    if (what == 6) e.recon->set_input_data(make_pd(s, y));
+    if (what == 7) e.inner->set_normalisation_sptr(shared_ptr<BinNormalisation>(new TrivialBinNormalisation));
+    if (what == 8) {
+      if (c.additive) e.inner->set_additive_proj_data_sptr(make_pd(s, a));
+      else { std::vector<float> zero(nb, 0.F); e.inner->set_additive_proj_data_sptr(make_pd(s, zero)); }   // "no additive term" = zeros
+    }
     emit_config(tr, s, c, m);
     if (vh::threw([&] { configure(e, s, c, scratch); }, &msg)) { tr.emit(vh::Json("ConfigureError").num("cfg", c.id).str("msg", msg.substr(0, 160))); continue; }
     run_once(tr, s, e, c, "reuse", 0, 1, K, *init_im, sc, false, false);
-    remove_outputs(e, std::max(K, 2 * N2));
+    remove_outputs(e, std::max(K, 2 * c2.N));
+  }
+  // ---- beyond the property's quantifier (named sections of Trace_OSSPS.tla); each on a fresh object
+  auto fresh_run = [&](Cfg cx, const std::string& kind, const std::vector<float>& in, int last, bool ref2) -> bool {
+    Engine e;
+    make_engine(e, s, m, y, a, c.additive, scratch);
+    emit_config(tr, s, cx, m);
+    if (vh::threw([&] { configure(e, s, cx, scratch); }, &msg)) { tr.emit(vh::Json("ConfigureError").num("cfg", cx.id).str("msg", msg.substr(0, 160))); return false; }
+    const bool ok = run_once(tr, s, e, cx, kind, 0, 1, last, *image_from(s, in), sc, false, ref2);
+    remove_outputs(e, last);
+    return ok;
+  };
+  // user-supplied precomputed denominator: the file a run saved gives the same reconstruction; a file of another geometry is refused
+  {
+    Engine e0;   // writes the file
+    make_engine(e0, s, m, y, a, c.additive, scratch);
+    if (!vh::threw([&] { configure(e0, s, c, scratch); }, &msg)) {
+      emit_config(tr, s, c, m);
+      run_once(tr, s, e0, c, "again", 0, 1, K, *init_im, sc, false, false);   // (a fresh object: must repeat the reference as well)
+      Cfg cd = c; cd.denFile = 1; cd.denPath = e0.prefix + "_precomputed_denominator.hv";
+      Engine e;
+      make_engine(e, s, m, y, a, c.additive, scratch);
+      emit_config(tr, s, cd, m);   // same id: same reconstruction, other source of the denominator
+      if (!vh::threw([&] { configure(e, s, cd, scratch); }, &msg)) run_once(tr, s, e, cd, "denfile", 0, 1, K, *init_im, sc, false, false);
+      remove_outputs(e, K);
+      if (rng.coin()) {
+        Cfg cw = c; cw.id = ++cfgid; cw.denFile = 2; cw.denPath = scratch + "/wrongden.hv";
+        VoxelsOnCartesianGrid<float> other(s.t.exam_info, IndexRange3D(0, s.nz, -(s.ny / 2), -(s.ny / 2) + s.ny - 1, -(s.nx / 2), -(s.nx / 2) + s.nx - 1),
+                                           CartesianCoordinate3D<float>(0.F, 0.F, 0.F), CartesianCoordinate3D<float>(4.F, 4.F, 4.F));
+        other.fill(1.F);
+        std::string fn = scratch + "/wrongden";
+        OutputFileFormat<Img>::default_sptr()->write_to_file(fn, other);
+        fresh_run(cw, "refuse", init, K, false);
+      }
+      emit_config(tr, s, c, m);
+    }
+    remove_outputs(e0, K);
+  }
+  // settings set_up must refuse: a prior without parabolic surrogate, a relaxation parameter of 0
+  if (rng.coin()) { Cfg cx = c; cx.id = ++cfgid; cx.prior = true; cx.priorType = 2; cx.beta = 1; cx.kappa = cx.dep = false; cx.defaultWeights = true; cx.w.clear(); cx.kap.clear();
+                    fresh_run(cx, "refuse", init, K, false); }
+  else { Cfg cx = c; cx.id = ++cfgid; cx.aN = 0; cx.viaParse = rng.coin(); fresh_run(cx, "refuse", init, K, false); }
+  // randomised subset order: the law for whichever subset the schedule hands over
+  if (N > 1) { Cfg cx = c; cx.id = ++cfgid; cx.randomise = true; fresh_run(cx, "fresh", init, K, false); }
+  // special values: upper bound 0, a huge gamma, a single sub-iteration
+  { Cfg cx = c; cx.id = ++cfgid;
+    switch (rng.range(0, 2)) {
+    case 0: cx.uInf = false; cx.uN = 0; cx.uK = 0; fresh_run(cx, "fresh", init, K, false); break;
+    case 1: cx.gN = 256; cx.gK = 0; fresh_run(cx, "fresh", init, K, false); break;
+    default: fresh_run(cx, "fresh", init, 1, false); break;
+    } }
+  // log-cosh prior (has a parabolic surrogate; its curvature depends on the image)
+  if (rng.range(0, 1) == 0) { Cfg cx = c; cx.id = ++cfgid; cx.prior = true; cx.priorType = 1; cx.beta = rng.range(1, 2); cx.dep = false; cx.defaultWeights = true; cx.w.clear();
+                              if (!cx.kappa) cx.kap.clear();
+                              fresh_run(cx, "fresh", init, K, false); }
+  // enforce initial positivity: fresh start from an image with zeros, then resumed from saved images
+  {
+    Cfg cx = c; cx.id = ++cfgid; cx.enforcePos = true;
+    std::vector<float> in = init;
+    in[rng.range(0, nv - 1)] = 0.F; in[rng.range(0, nv - 1)] = 0.F;
+    Engine e;
+    make_engine(e, s, m, y, a, c.additive, scratch);
+    emit_config(tr, s, cx, m);
+    if (!vh::threw([&] { configure(e, s, cx, scratch); }, &msg) && run_once(tr, s, e, cx, "fresh", 0, 1, K, *image_from(s, in), sc, false, true)) {
+      for (int k = 1; k < K; k += 2) {
+        shared_ptr<Img> sv = read_saved(tr, e, cx, k);
+        if (!sv) continue;
+        Engine e2;
+        make_engine(e2, s, m, y, a, c.additive, scratch);
+        if (!vh::threw([&] { configure(e2, s, cx, scratch); }, &msg)) run_once(tr, s, e2, cx, "resume", k, k + 1, K, *sv, sc, false, false);
+        remove_outputs(e2, K);
+      }
+    }
+    remove_outputs(e, K);
   }
   // ---- filters on (bounds only): inter-iteration filter / post-filter
   {
